@@ -47,6 +47,20 @@ theorem repair_restores_known (s : St) (hc : CacheInv hash s) (hnd : (K s.ws).No
     (∀ j d d', alookup j s.ws = some d → alookup j (repair hash s).1.ws = some d' → d'.payload = d.payload) :=
   Cache.repair_restores_known s hc hnd hk
 
+/-- repair() — successful or not, whatever the damage — keeps every entry of the session cache
+    and of the cache file sound (a state point read without validation is registered under its
+    true id or dropped again). -/
+theorem repair_keeps_cache_sound (s : St) (hc : CacheInv hash s) : CacheInv hash (repair hash s).1 :=
+  cacheInv_repair s hc
+
+/-- Hence even after repair() followed by update_cache() in the same session, a fresh session
+    opening any id gets an error or a state point hashing to that id (this is the sequence on which
+    the pinned tree handed out wrong state points, finding F-9d). -/
+theorem open_by_id_sound_after_repair (s : St) (hc : CacheInv hash s) (id : String) (v : JVal)
+    (hr : (openById hash (newSession (updateCache hash (repair hash s).1).1) id).2 = .ok v) :
+    hash v = id :=
+  openById_fresh_sound _ (cacheInv_updateCache (cacheInv_repair s hc)).2 id v hr
+
 /-- The stronger reading of "restores" — after repair every payload sits with the state point it
     belonged to — is FALSE of the model (and of the code: known finding F-9b): two directories
     swapped by renaming while the cache knows both ids. -/
